@@ -161,11 +161,23 @@ def generate(rng, tier):
     n = 400 if tier == "quick" else 8000
     cases = list(CORPUS)
     for i in range(n):
-        cases.append(_gen_case(rng, malformed=(i % 6 == 5)))
+        c = _gen_case(rng, malformed=(i % 6 == 5))
+        if i % 5 == 3:
+            c["spill"] = True      # histories on disk
+        cases.append(c)
     return cases
 
 
 def run_impl(case):
+    if case.get("spill"):
+        # every history (the output's and the push-based adapters') is kept on disk (memory limit 0)
+        import tempfile
+        with tempfile.TemporaryDirectory(prefix="c09spill") as d:
+            return _run_impl(case, d)
+    return _run_impl(case, None)
+
+
+def _run_impl(case, spill_dir):
     t0 = T(0)
     info = fm.Info(time=t0, grid=fm.NoGrid())
     out = fm.Output(name="Out")
@@ -214,6 +226,10 @@ def run_impl(case):
             out >> ada >> inp
         inputs.append(inp)
         adapters.append(ada)
+    if spill_dir is not None:
+        for x in [out] + [a for a in adapters if a is not None]:
+            x.memory_limit = 0
+            x.memory_location = spill_dir
     for inp in inputs:
         inp.ping()
     out.push_info(info)
@@ -260,7 +276,13 @@ def run_impl(case):
             user.append(err_class(e))
         marks.append([len(events), len(out.data)])
     kinds = ["adapter" if isinstance(k, fm.IAdapter) else "input" for k in keys]
-    return {"nkeys": len(keys), "key_kinds": kinds, "events": events, "user": user, "marks": marks, "cb": cb_log}
+    spill = None
+    if spill_dir is not None:
+        import os
+        holders = {id(x): x for x in [out] + [a for a in adapters if a is not None]}.values()
+        held = [d for x in holders for _t, d in getattr(x, "data", []) if isinstance(d, str)]
+        spill = [sorted(os.listdir(spill_dir)), sorted(os.path.basename(h) for h in held)]
+    return {"spill": spill, "nkeys": len(keys), "key_kinds": kinds, "events": events, "user": user, "marks": marks, "cb": cb_log}
 
 
 def _ops_from_events(obs):
@@ -425,11 +447,25 @@ def _callback_pulls(case, obs):
     return None
 
 
+def _spill_files(case, obs):
+    """histories kept on disk: exactly the retained entries have a file (none of a retained entry is gone, none of a
+    released entry is left behind)"""
+    if not obs.get("spill"):
+        return None
+    files, held = obs["spill"]
+    if files != held:
+        gone = [h for h in held if h not in files]
+        left = [f for f in files if f not in held]
+        return (f"histories on disk: {len(gone)} retained entr{'y has' if len(gone) == 1 else 'ies have'} no file any more, "
+                f"{len(left)} file(s) of released entries are left behind")
+    return None
+
+
 def monitor(case, obs):
     fails, _, _ = _sim(obs)
     if fails:
         return fails[0]
-    return _user_level_bound(case, obs) or _user_level_adapters(case, obs) or _callback_pulls(case, obs)
+    return _spill_files(case, obs) or _user_level_bound(case, obs) or _user_level_adapters(case, obs) or _callback_pulls(case, obs)
 
 
 def nontrivial(case, obs):
